@@ -634,6 +634,10 @@ pub fn execute(case: &IterCase, ctx: &mut Ctx) -> Verdict {
                     let mut v2 = v1.view_mut(s2, e2);
                     on_mut(&mut v2, case, &mut run, pv, col)
                 }
+                (RecvKind::SliceMut, _) => {
+                    let mut v = TooDeeViewMut::new(c, r, parent.data_mut());
+                    on_mut(&mut v, case, &mut run, pv, col)
+                }
             }
         }
         IRecv::View(_) => {
@@ -915,6 +919,10 @@ fn enum_cases(kinds: &[IterKind], tier: Tier, emit: &mut dyn FnMut(IterCase)) {
                 let ncols = if kind.is_col() { cols.max(1) } else { 1 };
                 for col in 0..ncols {
                     if kind.is_col() && cols == 0 {
+                        // no column exists: creating the iterator must panic
+                        for bad in [0u64, 1, u64::MAX] {
+                            emit(IterCase { cols, rows, recv, kind, col: bad, script: vec![], end: None });
+                        }
                         continue;
                     }
                     // all scripts up to `depth`
